@@ -138,6 +138,18 @@ for _ in range(N):
             return "['" + st + "']"
         q = '$' + ''.join(step(st) for st in l)
         print(json.dumps({"q": q, "doc": d, "tdoc": tag(d)}, ensure_ascii=False)); continue
+    if rnd.random() < 0.03:
+        # wide unions (8, 9, 16, 17, 32, 33 selectors) over one or several input nodes: any table, small-vector or hash-based shortcut has a size where it switches
+        n = rnd.choice([8, 9, 10, 12, 16, 17, 32, 33])
+        names = ['a', 'b', 'c', 'd', 'e', 'f', 'g', 'h', 'i', 'j', 'k', 'l']
+        kind = rnd.choice(['names', 'names', 'indices', 'mixed'])
+        if kind == 'names': sels = ["'%s'" % rnd.choice(names[:rnd.choice([3, 10, 12])]) for _ in range(n)] if rnd.random() < 0.4 else ["'%s'" % x for x in (names * 3)[:n]]
+        elif kind == 'indices': sels = [str(rnd.choice([0, 1, 2, -1, -2, 3])) for _ in range(n)]
+        else: sels = [rnd.choice(["'a'", "'b'", '0', '1', '-1', '*', '0:2', "'c'"]) for _ in range(n)]
+        obj = lambda: {k: rnd.choice([1, 2, 'x', None, [1]]) for k in rnd.sample(names, rnd.choice([2, 5, 10, 12]))}
+        dd = rnd.choice([[obj(), obj(), obj()], {'p': obj(), 'q': obj()}, obj(), [[1, 2, 3], [4, 5], obj()]])
+        q = rnd.choice(['$[*]', '$..', '$', '$[*]', '$.*']) + '[' + ','.join(sels) + ']'
+        print(json.dumps({"q": q, "doc": dd, "tdoc": tag(dd)}, ensure_ascii=False)); continue
     ks = sorted(keys_of(d, set())) or ['a']
     if rnd.random() < 0.3: ks = ks + ['zz']
     q = '$'
